@@ -4,6 +4,7 @@ import Req.Pool.Monitor
 import Req.Pool.H1PoolLane
 import Req.Pool.Pairing
 import Req.Pool.H2MuxLane
+import Req.Pool.H3Map
 /-! Driver lanes of C09. -/
 namespace Req.Driver.L.C09
 open Req.Proto
@@ -226,7 +227,88 @@ def laneH2Mux : List String → String
     | _, _, _, _, _ => "bad-op"
   | _ => "bad-op"
 
+def insertSortedH3 (x : Nat × Nat) : List (Nat × Nat) → List (Nat × Nat)
+  | [] => [x]
+  | y :: ys => if x.1 ≤ y.1 then x :: y :: ys else y :: insertSortedH3 x ys
+
+/-! ### `c09h3map <nClients> <nReqs> <ops>` — the HTTP/3 client cache, one driving goroutine
+ops comma-joined: `S.r.h.<onlyCached>` request r (`RoundTripOpt`) for host h starts · `D.c.<ok>` the dial
+of client c (numbered in creation order) finishes · `X.c` the connection of c dies · `U.r` the context
+of r ends while its dial runs · `F.r.<connErr>` the round trip of r returns (nil / a connection-level
+error) · `CI` CloseIdleConnections · `CL` Close.  After each op everything the library then does on
+its own is applied (a request whose dial failed returns; the dial of a client that was closed while
+dialling fails).  Answer per op (joined with `;`): `skip` or
+`M=<host>:<client>,… C=<client>:<useCount>:<closed 0|1, - without a connection>,… R=<r>:<w|t<client>|o>,…`. -/
+
+namespace H3Lane
+open Req.Pool.H3Map
+
+def st1 (s : St) (op : Op) : St × Bool := let r := step s op; (r.1, r.2 != .ignored)
+
+/-- what happens on its own -/
+def settle (nc nr : Nat) : Nat → St → St
+  | 0, s => s
+  | fuel + 1, s =>
+    -- a client closed by us while its dial runs: the dial's context is cancelled
+    let r1 := (List.range nc).foldl (fun (a : St × Bool) c =>
+      if (a.1.cl c).closedByUs && (a.1.cl c).dial == .running && (a.1.cl c).host.isSome then
+        ((step a.1 (.dialDone c false)).1, true) else a) (s, false)
+    -- the dial runs under the context of the request that created the client: when that
+    -- request has given up, the dial fails
+    let r1 := (List.range nc).foldl (fun (a : St × Bool) c =>
+      if (a.1.cl c).dial == .running && (a.1.cl c).host.isSome && a.1.rst (a.1.cl c).creator == .over then
+        ((step a.1 (.dialDone c false)).1, true) else a) r1
+    -- a request that waited for a dial that failed returns
+    let r2 := (List.range nr).foldl (fun (a : St × Bool) r =>
+      let x := st1 a.1 (.dialFailed r); (x.1, a.2 || x.2)) r1
+    if r2.2 then settle nc nr fuel r2.1 else r2.1
+
+def dump (nc nr : Nat) (s : St) : String :=
+  let m := (s.clients.foldr (fun p acc => Req.Driver.L.C09.insertSortedH3 p acc) []).map
+    (fun p => toString p.1 ++ ":" ++ toString p.2)
+  let cs := ((List.range nc).filter (fun c => (s.cl c).host.isSome)).map fun c =>
+    -- `Close()` on a client without a connection (dial running or failed) leaves nothing to observe
+    toString c ++ ":" ++ toString (s.cl c).useCount ++ ":" ++
+      (if (s.cl c).dial != .ok then "-" else if (s.cl c).closedByUs then "1" else "0")
+  let rs := (List.range nr).filterMap fun r =>
+    match s.rst r with
+    | .fresh => none
+    | .holding c => some (toString r ++ ":" ++ (if (s.cl c).dial == .ok then "t" ++ toString c else "w"))
+    | .over => some (toString r ++ ":o")
+  let j (l : List String) := if l.isEmpty then "-" else ",".intercalate l
+  "M=" ++ j m ++ " C=" ++ j cs ++ " R=" ++ j rs
+
+end H3Lane
+
+def parseH3Op (s : String) : Option Req.Pool.H3Map.Op :=
+  match s.splitOn "." with
+  | ["S", r, h, oc] => do pure (.get (← r.toNat?) (← h.toNat?) (← parseB oc))
+  | ["D", c, ok] => do pure (.dialDone (← c.toNat?) (← parseB ok))
+  | ["X", c] => do pure (.connDies (← c.toNat?))
+  | ["U", r] => do pure (.giveUp (← r.toNat?))
+  | ["F", r, ce] => do pure (.finish (← r.toNat?) (← parseB ce))
+  | ["CI"] => some .closeIdle
+  | ["CL"] => some .close
+  | _ => none
+
+def laneH3Map : List String → String
+  | [nc, nr, ops] =>
+    match nc.toNat?, nr.toNat?, (if ops == "-" then some [] else (ops.splitOn ",").mapM parseH3Op) with
+    | some nc, some nr, some os =>
+      let r := os.foldl (fun (acc : Req.Pool.H3Map.St × List String) op =>
+        let x := Req.Pool.H3Map.step acc.1 op
+        -- `S` with onlyCached and nothing cached is a real call (returns ErrNoCachedConn); any other
+        -- ignored op is outside the calling protocol
+        if x.2 == .ignored then (acc.1, "skip" :: acc.2)
+        else
+          let s2 := H3Lane.settle nc nr 16 x.1
+          (s2, H3Lane.dump nc nr s2 :: acc.2)) ({}, [])
+      ";".intercalate r.2.reverse
+    | _, _, _ => "bad-op"
+  | _ => "bad-op"
+
 def lanes : List (String × (List String → String)) := [
+  ("c09h3map", laneH3Map),
   ("c09h2mux", laneH2Mux),
   ("c09lockset", laneLockset),
   ("c09pair", lanePair),
